@@ -7,7 +7,7 @@ NB_REPO = _c06.NET_REPO
 NB_SHIMS = _c06.NET_SHIMS + ["shim_netbuf_read.c", "shim_netbuf_write.c"]
 
 TARGETS = {
-    "h_netbuf": dict(harness=["h_netbuf.c"], engine=["vf.c", "mc.c", "fk.c"], shims=NB_SHIMS, repo=NB_REPO),
+    "h_netbuf": dict(repo_opt="-O0", harness=["h_netbuf.c"], engine=["vf.c", "mc.c", "fk.c"], shims=NB_SHIMS, repo=NB_REPO),
 }
 
 
